@@ -34,6 +34,14 @@ sc_stats_mpifunc (void *invec, void *inoutvec, int *len,
   double             *inout = (double *) inoutvec;
 
   for (i = 0; i < *len; ++i) {
+    if (!inout[0]) {
+      /* the extremes of an operand without samples are placeholders */
+      inout[3] = in[3];
+      inout[4] = in[4];
+      inout[5] = in[5];
+      inout[6] = in[6];
+    }
+
     /* sum count, values and their squares */
     inout[0] += in[0];
     if (in[0]) {                /* ignore statistics when no count */
